@@ -2353,6 +2353,154 @@ func ruleMuxHandoff(c *Ctx) {
 	}
 }
 
+// ruleReattachReturn: the address a successful reattach() returns is the
+// address it recorded in Client.address - Start hands the result of reattach
+// straight to its caller, and every later Start returns the field. A return
+// names the field, or the expression / local that was stored into it.
+func ruleReattachReturn(c *Ctx) {
+	p := c.P
+	f := p.Fn("Client.reattach")
+	if f == nil {
+		c.R.Undecided("R-ADDR", "Client.reattach", "anchor", "function not found")
+		return
+	}
+	info := f.Pkg.TypesInfo
+	addrF := p.FieldObj(modPath, "Client", "address")
+	var stored []ast.Expr
+	ast.Inspect(f.Body, func(x ast.Node) bool {
+		if as, ok := x.(*ast.AssignStmt); ok && len(as.Lhs) == len(as.Rhs) {
+			for i, l := range as.Lhs {
+				if SelField(info, l) == addrF && addrF != nil {
+					stored = append(stored, ast.Unparen(as.Rhs[i]))
+				}
+			}
+		}
+		return true
+	})
+	n, bad := 0, false
+	walkNoLit(f.Body, func(x ast.Node) bool {
+		rs, ok := x.(*ast.ReturnStmt)
+		if !ok || len(rs.Results) != 2 || !isNilIdent(info, rs.Results[1]) {
+			return true
+		}
+		n++
+		r := ast.Unparen(rs.Results[0])
+		okRet := SelField(info, r) == addrF && addrF != nil
+		for _, st := range stored {
+			if exprStr(st) == exprStr(r) {
+				okRet = true
+			}
+			if ro := identObj(info, r); ro != nil && ro == identObj(info, st) {
+				okRet = true
+			}
+		}
+		if !okRet {
+			bad = true
+			c.R.Violate("R-ADDR", p.Pos(rs), f.Name, "reattach returns the address it recorded", "reattach() returns "+exprStr(rs.Results[0])+" while Client.address holds something else: the Start call that attaches reports one address, every later Start call (and the dialer) uses another", nil)
+		}
+		return true
+	})
+	if n == 0 {
+		c.R.Undecided("R-ADDR", f.Name, "reattach returns the address it recorded", "no successful return found")
+	} else if !bad {
+		c.R.Hold("R-ADDR", p.Pos(f.Node()), f.Name, "reattach returns the address it recorded", "every successful return names Client.address or the value stored into it", true)
+	}
+}
+
+// ruleCheckUsesHashGuarded: in SecureConfig.Check every use of the Hash field
+// lies behind the edge on which it was found non-nil (the nil case is the
+// ErrSecureConfigNoHash answer, not a panic).
+func ruleCheckUsesHashGuarded(c *Ctx) {
+	p := c.P
+	f := p.Fn("SecureConfig.Check")
+	if f == nil {
+		c.R.Undecided("R-NILGUARD", "SecureConfig.Check", "anchor", "function not found")
+		return
+	}
+	info := f.Pkg.TypesInfo
+	g := p.Graph(f)
+	hashF := p.FieldObj(modPath, "SecureConfig", "Hash")
+	nonNil := func(e *Edge) bool {
+		at, ok := edgeAtom(info, e)
+		return ok && at.Kind == "nil" && at.Op == token.NEQ && SelField(info, at.X) == hashF && hashF != nil
+	}
+	seen := g.Reach([]*Node{g.Entry}, nil, nonNil)
+	n, bad := 0, false
+	for m := range seen {
+		if m.Ast == nil {
+			continue
+		}
+		uses := false
+		walkNoLit(m.Ast, func(x ast.Node) bool {
+			if se, ok := x.(*ast.SelectorExpr); ok && SelField(info, se) == hashF {
+				// the nil test itself is not a use
+				if be, isB := p.Parent(se).(*ast.BinaryExpr); isB && (be.Op == token.EQL || be.Op == token.NEQ) && (isNilIdent(info, be.X) || isNilIdent(info, be.Y)) {
+					return true
+				}
+				uses = true
+			}
+			return true
+		})
+		if uses {
+			bad = true
+			c.R.Violate("R-NILGUARD", p.Pos(m.Ast), f.Name, "use of SecureConfig.Hash behind its nil test", "SecureConfig.Hash is used on a path on which it was not found non-nil: a configuration without a hash function panics the host instead of yielding ErrSecureConfigNoHash", nil)
+		}
+	}
+	ast.Inspect(f.Body, func(x ast.Node) bool {
+		if se, ok := x.(*ast.SelectorExpr); ok && SelField(info, se) == hashF {
+			n++
+		}
+		return true
+	})
+	if n == 0 {
+		c.R.Undecided("R-NILGUARD", f.Name, "use of SecureConfig.Hash behind its nil test", "the field is never used")
+	} else if !bad {
+		c.R.Hold("R-NILGUARD", p.Pos(f.Node()), f.Name, "use of SecureConfig.Hash behind its nil test", fmt.Sprintf("%d mentions, every use behind Hash != nil", n), true)
+	}
+}
+
+// ruleDialAckDeadline: a net/rpc broker Dial is answered when the peer's
+// Accept arrives, which may be up to the pending window (5 s) after the dial.
+// If Dial bounds its wait for the acknowledgement with an I/O deadline, that
+// deadline is at least the window: an absolute deadline set in MuxBroker.Dial
+// from time.Now().Add(D) has a constant D of at least 5 s (the window of
+// Accept and timeoutWait, which R-BOUND/window keeps equal).
+func ruleDialAckDeadline(c *Ctx) {
+	p := c.P
+	f := p.Fn("MuxBroker.Dial")
+	if f == nil {
+		c.R.Undecided("R-BOUND/window", "MuxBroker.Dial", "anchor", "function not found")
+		return
+	}
+	info := f.Pkg.TypesInfo
+	n, bad := 0, false
+	for _, call := range f.Calls() {
+		se, ok := ast.Unparen(call.Fun).(*ast.SelectorExpr)
+		if !ok || len(call.Args) != 1 || (se.Sel.Name != "SetDeadline" && se.Sel.Name != "SetReadDeadline") {
+			continue
+		}
+		add, ok := ast.Unparen(p.Deref(f, call.Args[0])).(*ast.CallExpr)
+		if !ok || len(add.Args) != 1 {
+			continue // time.Time{}: clearing
+		}
+		if as, isSel := ast.Unparen(add.Fun).(*ast.SelectorExpr); !isSel || as.Sel.Name != "Add" {
+			continue
+		}
+		n++
+		d := durationConst(info, add.Args[0])
+		construct := "ack deadline " + exprStr(add.Args[0])
+		if d >= 5*int64(1e9) {
+			c.R.Hold("R-BOUND/window", p.Pos(call), f.Name, construct, "a constant of at least the 5 s pending window", true)
+		} else {
+			bad = true
+			c.R.Violate("R-BOUND/window", p.Pos(call), f.Name, construct, "Dial stops waiting for the peer's acknowledgement before the pending window (5 s) has passed: a dial that arrives first and is accepted within the window fails with an I/O timeout, while the Accept gets a connection nobody uses", nil)
+		}
+	}
+	if n == 0 && !bad {
+		c.R.Hold("R-BOUND/window", p.Pos(f.Node()), f.Name, "ack deadline", "Dial sets no I/O deadline of its own (the peer's window decides)", false)
+	}
+}
+
 // ---------- R-BOUND/poll: the reattached pid is polled at a constant, short interval ----------
 
 // rulePidPoll: pidWait notices the exit of a process that is not our child
